@@ -26,9 +26,18 @@ def run_whip(path, field, dtype, limit, outfile, finish=None, start=None):
         sys.argv = old
 
 
+def place(ctx, spec):
+    """where the plotfile of a spec is written (spec["path_sub"]: sub-directories / name below a fresh scratch directory)"""
+    path = ctx.newdir("c10_")
+    if spec.get("path_sub"):
+        path = os.path.join(path, *spec["path_sub"])
+        os.makedirs(os.path.dirname(path))
+    return path
+
+
 def run_case(ctx, rep, spec, field, dtype, limit, order_id, model, path=None, truth=None, orders=None):
     if path is None:
-        path = ctx.newdir("c10_")
+        path = place(ctx, spec)
         truth = plotgen.materialize(spec, path)
     orders = orders or pools.all_orders()
     names = dedup_names(spec["fields"])
@@ -75,7 +84,14 @@ def run(ctx, rep, model=True):
                                    nblk=[[2, 1, 2], [1, 2, 1], [2, 2, 1], [1, 1, 2]][i % 4], layout=["scatter", "files"][i % 2],
                                    single0=(i % 3 == 0), refine_p=0.3, scale=[None, None, "tiny", None, "far"][i % 5],
                                    exact=(i % 2 == 0))
-        path = ctx.newdir("c10_")
+        if i % 3 == 1:
+            spec["data"]["zero_boxes"] = True
+            rep.count("identically-zero-fine-boxes")
+        if i % 4 == 2:
+            # characters that mean something to glob / fnmatch / the shell in the plotfile path
+            spec["path_sub"] = [["sweep[2]", "run*x", "a?b"][i % 3], "plt_phi[0.8]_00007"]
+            rep.count("glob-characters-in-path")
+        path = place(ctx, spec)
         truth = plotgen.materialize(spec, path)
         names = list(dedup_names(spec["fields"]))
         nlev = len(spec["levels"])
